@@ -1706,6 +1706,130 @@ fn probe_step(args: &Args) {
 fn probe_step(_args: &Args) {}
 
 // ---------------------------------------------------------------------------------------------
+// C15: store-buffering litmus on the real actions (flag set by the first action, condition read by
+// the second action of the same delivery, an application thread arming in between)
+// ---------------------------------------------------------------------------------------------
+//
+// FlagSB.tla (over Mem.tla) says: with every access SeqCst, "the application armed the condition,
+// then saw the flag still unset, and the conditional shutdown of that very delivery nevertheless
+// read the condition as unarmed" is unreachable; with the flag's store (or the condition's load)
+// weaker than SeqCst it is reachable - on x86 too (the store waits in the store buffer). The
+// orderings of flag.rs cannot be extracted (they are applied to the caller's std atomics), so the
+// binding is this litmus: thread A raises the signal on itself round after round; thread B, timed
+// with rdtsc to hit the instant between the two actions, does `C.store(true); F.load()`. A child
+// that survives a round in which B saw F unset reports the forbidden outcome (status 99).
+
+#[cfg(target_arch = "x86_64")]
+fn probe_flagsb(args: &Args) {
+    use std::arch::x86_64::_rdtsc;
+    let budget_ms = args.num("budget-ms", 4000) as u128;
+    static B_READY: AtomicUsize = AtomicUsize::new(0);
+    static GO: AtomicUsize = AtomicUsize::new(0);
+    static DONE: AtomicUsize = AtomicUsize::new(0);
+    fn pin(cpu: usize) {
+        unsafe {
+            let mut set: libc::cpu_set_t = std::mem::zeroed();
+            libc::CPU_SET(cpu, &mut set);
+            libc::sched_setaffinity(0, std::mem::size_of::<libc::cpu_set_t>(), &set);
+        }
+    }
+    let ncpu = unsafe { libc::sysconf(libc::_SC_NPROCESSORS_ONLN) }.max(1) as usize;
+    let t0 = std::time::Instant::now();
+    let (mut children, mut shutdowns, mut forbidden, mut other) = (0u64, 0u64, 0u64, 0u64);
+    while t0.elapsed().as_millis() < budget_ms && ncpu >= 3 {
+        children += 1;
+        let seed = children.wrapping_mul(0x9E37_79B9_7F4A_7C15) ^ 0xD1B5_4A32_D192_ED03;
+        let st = fork_run(6000, || {
+            unsafe { libc::alarm(5) };
+            let base = (seed as usize) % ncpu;
+            let f = Arc::new(AtomicBool::new(false));
+            let c = Arc::new(AtomicBool::new(false));
+            signal_hook::flag::register(libc::SIGUSR1, Arc::clone(&f)).unwrap();
+            signal_hook::flag::register_conditional_shutdown(libc::SIGUSR1, 77, Arc::clone(&c)).unwrap();
+            {
+                // somebody polling the flag, as applications do (keeps its cache line shared)
+                let f = Arc::clone(&f);
+                std::thread::spawn(move || {
+                    pin((base + 2) % ncpu);
+                    let mut n = 0usize;
+                    loop {
+                        if f.load(Ordering::SeqCst) {
+                            n = n.wrapping_add(1);
+                        }
+                        std::hint::black_box(n);
+                    }
+                });
+            }
+            {
+                let (f, c) = (Arc::clone(&f), Arc::clone(&c));
+                std::thread::spawn(move || {
+                    pin((base + 1) % ncpu);
+                    let mut rng = seed | 1;
+                    let mut lat: Vec<u64> = Vec::with_capacity(64);
+                    let mut delay: u64 = 0;
+                    for round in 1..=20_000usize {
+                        f.store(false, Ordering::SeqCst);
+                        c.store(false, Ordering::SeqCst);
+                        B_READY.store(round, Ordering::SeqCst);
+                        while GO.load(Ordering::SeqCst) != round {}
+                        let start = unsafe { _rdtsc() };
+                        if round <= 64 {
+                            while !f.load(Ordering::SeqCst) {}
+                            lat.push(unsafe { _rdtsc() } - start);
+                            while DONE.load(Ordering::SeqCst) != round {}
+                            if round == 64 {
+                                lat.sort_unstable();
+                                delay = lat[lat.len() / 2] + 400;
+                            }
+                            continue;
+                        }
+                        while unsafe { _rdtsc() } - start < delay {}
+                        c.store(true, Ordering::SeqCst);
+                        let seen = f.load(Ordering::SeqCst);
+                        while DONE.load(Ordering::SeqCst) != round {}
+                        if !seen {
+                            // armed before the flag action ran; the delivery is over; we live
+                            unsafe { libc::_exit(99) };
+                        }
+                        rng ^= rng << 13;
+                        rng ^= rng >> 7;
+                        rng ^= rng << 17;
+                        delay = delay.saturating_sub(rng % 40);
+                    }
+                    unsafe { libc::_exit(0) };
+                });
+            }
+            pin(base);
+            for round in 1..=20_000usize {
+                while B_READY.load(Ordering::SeqCst) != round {}
+                std::hint::black_box(c.load(Ordering::SeqCst));
+                GO.store(round, Ordering::SeqCst);
+                unsafe { libc::raise(libc::SIGUSR1) };
+                DONE.store(round, Ordering::SeqCst);
+            }
+            loop {
+                std::thread::sleep(std::time::Duration::from_secs(1));
+            }
+        });
+        match st.text.as_str() {
+            "exited:77" => shutdowns += 1,
+            "exited:99" => forbidden += 1,
+            _ => other += 1,
+        }
+        if forbidden > 0 {
+            break;
+        }
+    }
+    println!(
+        "{}",
+        Obj::new("flagsb").int("children", children as i64).int("shutdowns", shutdowns as i64).int("forbidden", forbidden as i64).int("other", other as i64).int("cpus", ncpu as i64).done()
+    );
+}
+
+#[cfg(not(target_arch = "x86_64"))]
+fn probe_flagsb(_args: &Args) {}
+
+// ---------------------------------------------------------------------------------------------
 // C12: Signals instances and rejected additions
 // ---------------------------------------------------------------------------------------------
 
@@ -2074,6 +2198,7 @@ pub fn main(args: &Args, which: &str) -> i32 {
         "fresh" => probe_fresh(args),
         "stall" => probe_stall(args),
         "step" => probe_step(args),
+        "flagsb" => probe_flagsb(args),
         "origin" => probe_origin(args),
         _ => {
             eprintln!("unknown probe {}", which);
